@@ -6,10 +6,10 @@ cp $src/patch_$x.diff $d/patch.diff; cp $src/demo_${x}_test.go $d/demo_test.go; 
 dest=$(head -1 $d/notes.md | sed -n 's/^DEST: *//p' | tr -d '`' | tr -d ' ')
 [ -z "$dest" ] && dest=$(grep -o '[a-z-]*\(/messages\)\?/zz_demo_[a-z_0-9]*_test\.go' $d/notes.md | head -1)
 run=$(grep -o 'func Test[A-Za-z0-9_]*' $d/demo_test.go | sed 's/func //' | tr '\n' '|' | sed 's/|$//')
-python3 - "$id" "$suf" "$dest" "$run" <<'PY'
+python3 - "$id" "$suf" "$dest" "$run" "${5:-2}" <<'PY'
 import json,sys
 id,suf,dest,run=sys.argv[1:5]
-json.dump({"breaks_property":id,"variant":suf,"wave":2,"demo_destination":dest,"demo_run":"go test -vet=off -count=1 -run '%s' ./%s/"%(run,dest.rsplit('/',1)[0]),
+json.dump({"breaks_property":id,"variant":suf,"wave":int(sys.argv[5]) if len(sys.argv)>5 else 2,"demo_destination":dest,"demo_run":"go test -vet=off -count=1 -run '%s' ./%s/"%(run,dest.rsplit('/',1)[0]),
  "files":{"patch":"patch.diff","demonstration":"demo_test.go","author_notes":"notes.md (written by the sub-agent that produced the change; it never saw /verif)"}},open('/verif/seeded/%s%s/meta.json'%(id,suf),'w'),indent=1)
 PY
 echo "$id$suf dest=$dest"
